@@ -22,6 +22,7 @@ import (
 	"sync"
 	"sync/atomic"
 	"time"
+	"unsafe"
 
 	"github.com/99designs/gqlgen/graphql"
 	"github.com/vektah/gqlparser/v2/ast"
@@ -265,9 +266,9 @@ type Run struct {
 	// tracing / cost-reporting user code does from concurrently running resolvers
 	RegisterExt bool
 	clock       atomic.Int64
-	mu     sync.Mutex
-	events []*Event
-	open   atomic.Int64 // resolver invocations currently inside user code
+	mu          sync.Mutex
+	events      []*Event
+	open        atomic.Int64 // resolver invocations currently inside user code
 }
 
 type runKey struct{}
@@ -398,6 +399,11 @@ func (e *Env) bindStub(stub any) {
 		}
 		object := strings.TrimSuffix(grp.Name, "Resolver")
 		gv := sv.Field(i)
+		if !grp.IsExported() {
+			// stubgen names the group after the raw type name: for a type whose name starts with a
+			// lower-case letter the group is unexported, reachable from here only through its address
+			gv = reflect.NewAt(grp.Type, unsafe.Pointer(gv.UnsafeAddr())).Elem()
+		}
 		for j := 0; j < grp.Type.NumField(); j++ {
 			ff := grp.Type.Field(j)
 			if ff.Type.Kind() != reflect.Func {
